@@ -24,7 +24,8 @@ class C11(Prop):
             "non-trivial = B non-empty or a steered packet present; distinct = (scenario, B)")
     reach = ["steer_fold_10000", "steer_final_ffff", "steer_raw_multiple", "udp_csum_ffff", "ipv6_tcp", "ipv6_udp",
              "ipv4_udp", "odd_length", "one_byte_payload", "padded_frame", "bad_field", "bad_bitflip", "subset_ge_2",
-             "empty_B", "retransmitted_segment", "tcp_and_udp_between_same_hosts"]
+             "empty_B", "retransmitted_segment", "tcp_and_udp_between_same_hosts",
+             "server_port_other_than_443"]
 
     def plan(self, tier):
         p = super().plan(tier)
@@ -57,6 +58,17 @@ class C11(Prop):
                     spec["same_host_pair"] = True
                 except (ValueError, RuntimeError):
                     pass
+        # connections to other server ports (TLS selected with -p; QUIC is recognised on any port)
+        PP = R.fork("ports")
+        extra_ports = []
+        for c in spec["conns"]:
+            if c["proto"] in ("tls", "quic") and c["s"]["port"] == 443 and PP.chance(35):
+                c["s"]["port"] = PP.choice([8443, 4433, 9443, PP.range(1024, 32000)])
+                c["other_port"] = True
+                if c["proto"] == "tls":
+                    extra_ports.append(c["s"]["port"])
+        if extra_ports:
+            spec.setdefault("cli", {})["p"] = sorted(set(extra_ports))
         spec["prop"] = "C11"
         spec["tier"] = tier
         spec["bseed"] = R.bits(40)
@@ -189,6 +201,8 @@ class C11(Prop):
 
     def reach_probe(self, out, spec, ex):
         byid = {c["id"]: c for c in spec["conns"]}
+        if any(c.get("other_port") for c in spec["conns"]):
+            out.count("reach:server_port_other_than_443")
         for e in ex["taplog"]:
             c = byid[e["conn"]]
             tcp = c["proto"] in ("tls", "http")
